@@ -404,7 +404,7 @@ def find_or_make_sum(ex, st, body, lo, hi):
                 goal = z3.And(side, z3.Implies(z3.And(lo <= j, j < hi), bj == other))
                 ob = Obligation(id="sigma-match", kind="lemma", func=ctx.func, label="sigma-extensionality", pc=list(st.pc),
                                 goal=goal, qassumes=list(st.qassumes), sums=[("term", j)])
-                r = check(ob, ctx, timeout_ms=500, want_model=False, use_cvc5=False, wall_ms=20000, rlimit=2500000)
+                r = check(ob, ctx, timeout_ms=500, want_model=False, use_cvc5=False, wall_ms=600000, rlimit=2500000)
                 if r["status"] == "unsat":
                     ctx.sigma_matches = getattr(ctx, "sigma_matches", 0) + 1
                     if how == "same":
@@ -439,7 +439,7 @@ def ensure_sign(ex, st, ss, lo, hi):
     for how, rel in (("zero", bj == 0), ("positive", bj > 0), ("nonneg", bj >= 0)):
         ob = Obligation(id="sigma-sign", kind="lemma", func=ctx.func, label="sigma-sign", pc=list(st.pc),
                         goal=z3.Implies(z3.And(lo <= j, j < hi), rel), qassumes=list(st.qassumes), sums=[("term", j)])
-        r = check(ob, ctx, timeout_ms=500, want_model=False, use_cvc5=False, wall_ms=20000, rlimit=1000000)
+        r = check(ob, ctx, timeout_ms=500, want_model=False, use_cvc5=False, wall_ms=600000, rlimit=1000000)
         if r["status"] == "unsat":
             if how == "zero":
                 st.assume(app == 0)
